@@ -254,6 +254,7 @@ def run(P, R, tier):
     registered_rule(P, R)
     samehint_rule(P, R)
     replacegrow_rule(P, R)
+    phaselookup_rule(P, R)
     stdthrow_census(P, R, reach)
 
 
@@ -1837,3 +1838,43 @@ def samehint_rule(P, R):
     else:
         R.violation(RULE, "check_same_model", "the -same_model hint returns TRUE (line %d) before the elements are compared with the kept model (loop at line %d): quick_setup then writes "
                     "through master[i]->unknown == NULL for an element the kept model lacks" % (hints[0][1], loops[0][1]), file=f["file"], line=hints[0][1], function=f["q"])
+
+
+def phaselookup_rule(P, R):
+    """"never a crash": the reactants of an instance outlive the simulation that defined them - also a simulation that stopped because a
+    block names a phase the database does not have.  The functions of a reaction step (step.cpp) look the phase of every component up
+    again with phase_bsearch, which returns NULL for an unknown name.  Every pointer obtained that way must be tested before the first
+    dereference (an `if` that mentions the pointer itself, not a member reached through it); the guards added stop the run with "Phase not
+    found in database".  Census of step.cpp."""
+    RULE = "C08.phaselookup"
+    R.rule(RULE, "step.cpp: a pointer returned by phase_bsearch is null-tested before its first dereference", minimum=8)
+    n = 0
+    for f in sorted(P.functions.values(), key=lambda g: (g["file"], g["line"])):
+        if not f.get("body") or not f["file"].endswith("step.cpp"):
+            continue
+        defs = []
+        for x in T.walk(f["body"]):
+            if x[0] == "Decl":
+                for d in x[2]:
+                    i = T.strip_casts(d[2]) if d[2] is not None else None
+                    if T.is_node(i) and i[0] == "Call" and T.callee_name(i) == "phase_bsearch":
+                        defs.append((d[0], x[1]))
+            if x[0] == "Bin" and x[2] == "=":
+                r, l = T.strip_casts(x[4]), T.strip_casts(x[3])
+                if T.is_node(r) and r[0] == "Call" and T.callee_name(r) == "phase_bsearch" and T.is_node(l) and l[0] == "Ref":
+                    defs.append((l[3], x[1]))
+        for var, line in defs:
+            def through(z):
+                return z[0] == "Member" and T.is_node(T.strip_casts(z[3])) and T.strip_casts(z[3])[0] == "Ref" and T.strip_casts(z[3])[3] == var
+            derefs = sorted(y[1] for y in T.walk(f["body"]) if through(y) and y[1] >= line)
+            tests = sorted(y[1] for y in T.walk(f["body"]) if y[0] == "If" and y[1] >= line and any(z[0] == "Ref" and z[3] == var for z in T.walk(y[2]))
+                           and not any(through(z) for z in T.walk(y[2])))
+            n += 1
+            inst = "%s:%s@%d" % (f["q"].split("::")[-1], var, line - f["line"])
+            if not derefs or (tests and tests[0] <= derefs[0]):
+                R.ok(RULE, inst, "tested at line %s" % (tests[0] if tests else "- (never dereferenced)"))
+            else:
+                R.violation(RULE, inst, "`%s` = phase_bsearch(...) (line %d) is dereferenced at line %d without a null test: a reactant kept from a definition that failed on an "
+                            "unknown phase crashes the host process when it is used" % (var, line, derefs[0]), file=f["file"], line=derefs[0], function=f["q"])
+    if n < 8:
+        R.anchor_missing(RULE, "only %d phase_bsearch results found in step.cpp" % n)
